@@ -5300,3 +5300,68 @@ def open_reads_within_length_rules(ctx):
         ctx._ob(not bad, ctx.sample('guard', f, c.line, 'read of %d bytes at offset 0 only after the length was found >= %d (or the storage was initialised)' % (ln, ln)))
         if bad:
             ctx.violate('guard|%s|read-past-length|%d' % (f.path, ln), 'TransactionalMemory::new can read %d bytes at offset 0 of a storage whose length was not checked to be at least %d: a read past the end of the storage' % (ln, ln), f, c.line)
+
+
+def round4_residue_rules(ctx):
+    # --- tuple type names
+    ctx.set_rule('C17.R9', 'a tuple type name classifies as user-defined when any element does: every element named is also asked is_user_defined')
+    n = 0
+    for f in ctx.facts.fn_list:
+        if not (f.file.endswith('tuple_types.rs') and f.path.endswith('::type_name') and '(' in f.path and f.kind != 'closure'):
+            continue
+        s_ = core.sym(f)
+
+        def ga_of_receiver(c):
+            if not c.t['a']:
+                return None
+            t = s_.operand(c.t['a'][0])
+            if t[0] == 'place':
+                t = t[1]
+            if t[0] == 'call':
+                cs = core.CallSite(f, t[1], f.blocks[t[1]]['t'])
+                if (cs.declared or cs.callee or '').split('::')[-1] == 'type_name':
+                    return tuple(cs.t.get('ga') or [])
+            return None
+        named = {ga_of_receiver(c) for c in f.calls if (c.declared or c.callee or '').endswith('TypeName::name') and not f.blocks[c.bb]['c']}
+        asked = {ga_of_receiver(c) for c in f.calls if (c.declared or c.callee or '').endswith('TypeName::is_user_defined') and not f.blocks[c.bb]['c']}
+        named.discard(None)
+        asked.discard(None)
+        if not named:
+            continue
+        n += 1
+        ok_ = named == asked
+        ctx._ob(ok_, ctx.sample('agreement', f, f.line, 'elements named %s == elements classified %s' % (sorted(named), sorted(asked))))
+        if not ok_:
+            ctx.violate('agreement|%s|tuple-classification' % f.path, 'the tuple type name is built from elements %s but only %s are asked whether they are user-defined: a user type in another position is classified as built-in and can alias a built-in type name' % (sorted(named), sorted(asked)), f, f.line)
+    ctx.check(n >= 11, 'floor|tuple-type-names', 'tuple type_name implementations analysed: %d' % n)
+    # --- system table scans under the namespace lock
+    ctx.set_rule('C16.R4', 'a system table of the write transaction is scanned while the system-tables lock is held')
+    f = ctx.fn(WT + '::read_existing_system_table')
+    if f is not None:
+        cb = [cpoint(c, 'read closure') for c in f.calls if c.resolved is None and c.declared and c.declared.split('::')[-1] in ('call_once', 'call_mut', 'call')]
+        ctx.check(len(cb) == 1, 'floor|%s|closure' % f.path, 'the caller\'s scan closure is invoked', f, f.line)
+        ctx.held(f, cb, 'self.system_tables')
+        bn = ctx.sites(f, 'Btree::new', exact=1)
+        ctx.held(f, bn, 'self.system_tables')
+    # --- multimap page walk: every subtree root of a leaf
+    ctx.set_rule('C06.R4b', '')
+    f = ctx.fn('UntypedMultiBtree::visit_all_pages')
+    if f is not None:
+        for cl in [c for c in f.closures if c.calls_to('multimap_btree::parse_subtree_roots')]:
+            sv = [cpoint(c) for c in cl.calls_to('UntypedBtree::visit_all_pages')]
+            if sv:
+                ctx.each_iteration_passes(cl, sv, 'every value subtree named by a leaf of the outer tree is walked', 'subtree-not-walked', allow_return=False)
+    # --- page paths of subtree pages keep the subtree's own ancestors
+    ctx.set_rule('C13.R8', 'the path of a multimap subtree page contains the outer path and the whole path inside the subtree')
+    f = ctx.fn('PagePath::with_subpath')
+    if f is not None:
+        s_ = core.sym(f)
+        ex = ctx.sites(f, ['Vec::extend', 'Vec::extend_from_slice', 'Extend::extend'], exact=1)
+        for p in ex:
+            d = s_.describe(s_.operand(p.call.t['a'][1]))
+            ok_ = d.startswith('other') and d.endswith('path')
+            ctx._ob(ok_, ctx.sample('arg-flow', f, p.line, 'the sub-path appended is other.path (%s)' % d))
+            if not ok_:
+                ctx.violate('arg-flow|%s|subpath' % f.path, 'with_subpath does not append the whole path of `other` (appends %s): the ancestors of a subtree page inside its subtree are lost, and compaction cannot relocate it' % d, f, p.line)
+        ctx.must_pass(f, ex, exits='any', what='the sub-path is appended')
+        ctx.no_direct(f, ['Vec::push'], 'a single page number is not a path')
